@@ -41,6 +41,10 @@ func h11u(level int, authLen int, trailingNul, extra, used bool) {
 		w.chainBytes = pemChainOf(w.pki, []byte{0})
 	}
 	quote := mkQuote(w.pki, authLen)
+	if authLen == 0 && vp.Choose("emptyAuthDataIsNil", 2) == 1 {
+		// a message that went through protobuf decoding carries empty byte fields as nil
+		quote.SignedData.CertificationData.QeReportCertificationData.QeAuthData.Data = nil
+	}
 	if extra {
 		quote.ExtraBytes = vp.Bytes("extra", vp.IntRange("extra_len", 1, 4096))
 	}
